@@ -120,6 +120,10 @@ impl ParquetTable {
             max_i64: Option<i64>,
             null_count: Option<u64>,
             has_int_stats: bool,
+            /// Set when some chunk that may hold a non-NULL value contributed no
+            /// usable (min, max): the merged bounds then cover only PART of the
+            /// column and must not be published as table-wide bounds.
+            minmax_void: bool,
         }
 
         let mut total_rows: usize = 0;
@@ -152,11 +156,18 @@ impl ParquetTable {
                         max_i64: None,
                         null_count: Some(0),
                         has_int_stats: false,
+                        minmax_void: false,
                     });
 
                     let Some(stats) = col_chunk.statistics() else {
-                        // A chunk without stats poisons null_count accuracy.
+                        // A chunk without stats poisons null_count accuracy —
+                        // and, unless it is empty, the min/max bounds too: its
+                        // values are unknown, so bounds merged from the OTHER
+                        // chunks say nothing about the whole column.
                         acc.null_count = None;
+                        if col_chunk.num_values() > 0 {
+                            acc.minmax_void = true;
+                        }
                         continue;
                     };
 
@@ -169,8 +180,35 @@ impl ParquetTable {
                         None => acc.null_count = None,
                     }
 
+                    // Unsigned logical types (UINT_8..UINT_64) store the unsigned
+                    // value's bit pattern in the signed physical type: decode it,
+                    // and drop bounds that do not fit an i64.
+                    let descr = col_chunk.column_descr();
+                    let unsigned = matches!(
+                        descr.logical_type_ref(),
+                        Some(parquet::basic::LogicalType::Integer {
+                            is_signed: false,
+                            ..
+                        })
+                    ) || matches!(
+                        descr.converted_type(),
+                        parquet::basic::ConvertedType::UINT_8
+                            | parquet::basic::ConvertedType::UINT_16
+                            | parquet::basic::ConvertedType::UINT_32
+                            | parquet::basic::ConvertedType::UINT_64
+                    );
                     let (min, max) = match stats {
+                        ParquetStatistics::Int64(s) if unsigned => {
+                            match (s.min_opt().copied(), s.max_opt().copied()) {
+                                (Some(lo), Some(hi)) if hi >= 0 && lo >= 0 => (Some(lo), Some(hi)),
+                                _ => (None, None),
+                            }
+                        }
                         ParquetStatistics::Int64(s) => (s.min_opt().copied(), s.max_opt().copied()),
+                        ParquetStatistics::Int32(s) if unsigned => (
+                            s.min_opt().map(|v| *v as u32 as i64),
+                            s.max_opt().map(|v| *v as u32 as i64),
+                        ),
                         ParquetStatistics::Int32(s) => (
                             s.min_opt().map(|v| *v as i64),
                             s.max_opt().map(|v| *v as i64),
@@ -181,6 +219,12 @@ impl ParquetTable {
                         acc.has_int_stats = true;
                         acc.min_i64 = Some(acc.min_i64.map_or(min, |m| m.min(min)));
                         acc.max_i64 = Some(acc.max_i64.map_or(max, |m| m.max(max)));
+                    } else if col_chunk.num_values() > 0
+                        && stats.null_count_opt() != Some(col_chunk.num_values() as u64)
+                    {
+                        // No usable (min, max) and not provably all-NULL: same
+                        // as a chunk without statistics.
+                        acc.minmax_void = true;
                     }
                 }
             }
@@ -249,7 +293,12 @@ impl ParquetTable {
 
         let column_stats = cols
             .into_iter()
-            .map(|(name, acc)| {
+            .map(|(name, mut acc)| {
+                if acc.minmax_void {
+                    acc.min_i64 = None;
+                    acc.max_i64 = None;
+                    acc.has_int_stats = false;
+                }
                 let non_null = acc
                     .null_count
                     .map(|n| (total_rows as u64).saturating_sub(n))
@@ -257,7 +306,8 @@ impl ParquetTable {
                 let ndv_est = if acc.has_int_stats {
                     match (acc.min_i64, acc.max_i64) {
                         (Some(min), Some(max)) if max >= min => {
-                            Some(non_null.min((max - min) as u64 + 1))
+                            // abs_diff: `max - min` overflows i64 for wide ranges.
+                            Some(non_null.min(max.abs_diff(min).saturating_add(1)))
                         }
                         _ => None,
                     }
